@@ -15,4 +15,5 @@ for f in $files; do
   git -C /repo checkout -- .
 done
 (cd harness && CARGO_NET_OFFLINE=true cargo build --offline --release 2>&1 | tail -1) > /dev/null
+python3 /verif/tools/codegen.py >/dev/null
 git -C /repo status --short | head -3
